@@ -1,0 +1,28 @@
+//go:build verif
+
+// Contracts for package wire, read by the verification-condition generator
+// in /verif (govc). Comments only; compiled only with the build tag "verif".
+
+package wire
+
+// Start-up configuration: a wire address generator is installed and the decoder
+// registry holds non-nil decoders (RegisterDecoder treats nil as "not set").
+//@ envassume forall t Type :: has(decoders, t) ==> decoders[t] != nil
+
+//@ func NewAddress
+//@   trusted
+//@   ensures result != nil
+
+//@ func (*AddressDecMap).Decode
+//@   requires r != nil
+//@   modifies a.*
+//@   loop 1
+//@     modifies (*a)[*]
+//@     invariant *a != nil && fresh(*a)
+
+//@ func (*AddressMapArray).Decode
+//@   requires r != nil
+//@   modifies a.*
+//@   loop 1
+//@     modifies (*a)[*]
+//@     invariant len(*a) == mapLen && fresh(arr(*a)) && off(*a) == 0
